@@ -4,7 +4,7 @@ From Coq Require Import String.
 Require Import OV.Base.Bytes OV.Base.PyInt OV.Base.Str OV.Base.Regex OV.Base.C16_Py.
 Require Import OV.Gen.C16_Aliases OV.Gen.C16_Fold OV.Gen.C16_Slug OV.Gen.C16_Code.
 Require Import OV.Model.C16 OV.Model.C16_Codecs.
-Require Import OV.Proofs.C16 OV.Proofs.C16_Slug OV.Proofs.C16_Codecs.
+Require Import OV.Gen.C16_Charmaps OV.Proofs.C16 OV.Proofs.C16_Slug OV.Proofs.C16_Utf16 OV.Proofs.C16_Codecs.
 Open Scope N_scope.
 
 (* round trip through any ASCII spelling, in any letter case, of a name of one of the three
@@ -212,3 +212,13 @@ Lemma world3_roundtrip_utf32be d e t incoming0 errors :
   exists b, safe_encode (world3 d) (PStr t) incoming0 e errors = COk (PBytes b) /\
             safe_decode (world3 d) (PBytes b) (Some e) errors = COk t.
 Proof. intros Ha Hl Hr. exact (world3_roundtrip d e CUtf32BE t incoming0 errors Ha Hl Hr). Qed.
+Lemma world3_roundtrip_cp1252 d e t incoming0 errors :
+  forallb is_ascii e = true -> lookup3 e = Some CCp1252 -> charmap_repr cp1252_table t = true ->
+  exists b, safe_encode (world3 d) (PStr t) incoming0 e errors = COk (PBytes b) /\
+            safe_decode (world3 d) (PBytes b) (Some e) errors = COk t.
+Proof. intros Ha Hl Hr. exact (world3_roundtrip d e CCp1252 t incoming0 errors Ha Hl Hr). Qed.
+Lemma world3_roundtrip_koi8r d e t incoming0 errors :
+  forallb is_ascii e = true -> lookup3 e = Some CKoi8R -> charmap_repr koi8r_table t = true ->
+  exists b, safe_encode (world3 d) (PStr t) incoming0 e errors = COk (PBytes b) /\
+            safe_decode (world3 d) (PBytes b) (Some e) errors = COk t.
+Proof. intros Ha Hl Hr. exact (world3_roundtrip d e CKoi8R t incoming0 errors Ha Hl Hr). Qed.
